@@ -2,6 +2,7 @@ package main
 
 import (
 	"bufio"
+	"syscall"
 	"encoding/json"
 	"fmt"
 	"io"
@@ -33,6 +34,8 @@ func startWorker(id int, initFile string) (*worker, error) {
 	self, _ := os.Executable()
 	cmd := exec.Command(self, "worker", initFile)
 	cmd.Stderr = os.Stderr
+	// own process group: killing a stuck worker must take its solver process along
+	cmd.SysProcAttr = &syscall.SysProcAttr{Setpgid: true}
 	in, _ := cmd.StdinPipe()
 	out, _ := cmd.StdoutPipe()
 	if err := cmd.Start(); err != nil {
@@ -59,6 +62,7 @@ func startWorker(id int, initFile string) (*worker, error) {
 func (w *worker) kill() {
 	w.dead = true
 	w.in.Close()
+	syscall.Kill(-w.cmd.Process.Pid, syscall.SIGKILL) // the whole group: worker and its z3
 	w.cmd.Process.Kill()
 	w.cmd.Wait()
 }
